@@ -1035,3 +1035,15 @@ def _it_zip_eq(ctx, args, ck):
 @model('itertools::zip_eq')
 def _it_zip_eq2(ctx, args, ck):
     return _it_zip_eq(ctx, [into_iter_value(ctx, args[0]), args[1]], ck)
+
+
+# ---------------------------------------------------------------- rayon: sequential map in index order (its contract)
+for _k in ('map', 'zip', 'enumerate', 'filter', 'filter_map', 'sum', 'collect', 'count', 'for_each', 'fold', 'all', 'any'):
+    if ('Iterator::' + _k) in MODELS:
+        MODELS['ParallelIterator::' + _k] = MODELS['Iterator::' + _k]
+        MODELS['IndexedParallelIterator::' + _k] = MODELS['Iterator::' + _k]
+
+
+@model('IntoParallelIterator::into_par_iter', 'IntoParallelRefIterator::par_iter')
+def _into_par_iter(ctx, args, ck):
+    return into_iter_value(ctx, args[0])
